@@ -15,12 +15,21 @@ FS_EVENT = (r"fs::OpenOptions::open$|fs::File::(open|create|create_new|set_len|s
 
 
 def lock_constructor(ctx, rep):
-    sites = ctx.all_calls(ANY_LOCK_EVENT)
-    bodies = sorted({b["key"] for b, bi, t in sites})
+    """the function that builds the lock value (the struct holding the locked file); every flock call of the crate must lie in its
+    inlined cone (itself or private helpers it calls)"""
+    aggs = ctx.all_aggregates(r"file_lock::FileLock$")
+    bodies = sorted({b["key"] for b, bi, si, s in aggs})
     if not rep.expect("R13.3", "lock constructor", len(bodies) == 1,
-                      "expected exactly one function taking the directory lock, found %s" % bodies):
+                      "expected exactly one function building the lock value, found %s" % bodies):
         return None
-    return bodies[0]
+    L = bodies[0]
+    cone = {i.key for i in ctx.graph(L).insts}
+    for b, bi, t in ctx.all_calls(ANY_LOCK_EVENT):
+        if b["key"] not in cone:
+            rep.violation("R13.3", "lock|flock-outside-the-lock-constructor:%s" % short_key(b["key"]), cpath(t),
+                          "an advisory lock is taken outside the function that builds the lock value: the lock is not tied to an owner",
+                          where="%s:%d" % (rel(t["file"]), t["line"]))
+    return L
 
 
 def run(ctx, rep):
